@@ -52,6 +52,34 @@ pub open spec fn if_compiled(e: Cell, tail: bool, old: Lambda, new: Lambda) -> b
     &&& (nth(e, 3) matches Some(a) && rt_app(a)) ==> ends_in_call(new, tail)
 }
 
+// ---------------------------------------------------------------- procedures: the body's last expression, the compiled code object
+/// the element of the list e whose cdr is () -- the expression compile_lambda compiles with the tail flag set
+pub open spec fn last_tail(e: Cell) -> Option<Cell> decreases e {
+    match e { Cell::Pair(a, d) => if *d is Nil { Some(*a) } else { last_tail(*d) }, _ => None }
+}
+/// body of (lambda formals body...) / (define (name . formals) body...): everything after the second element
+pub open spec fn proc_body(e: Cell) -> Option<Cell> {
+    match e { Cell::Pair(a, r) => match *r { Cell::Pair(f, b) => Some(*b), _ => None }, _ => None }
+}
+/// the expression in tail position of the procedure form e, if its body has one
+pub open spec fn proc_tail_expr(e: Cell) -> Option<Cell> { match proc_body(e) { Some(b) => last_tail(b), None => None } }
+/// what a pointer designates in the (here opaque) heap
+pub uninterp spec fn heap_deref(h: Heap, c: VCell) -> VCell;
+/// the cell VCell::from(lambda) builds: VCell::Lambda(Rc::new(lambda))
+pub uninterp spec fn lambda_cell(l: Lambda) -> VCell;
+#[verifier::external_body]
+pub proof fn axiom_lambda_cell(l: Lambda) ensures lambda_cell(l) matches VCell::Lambda(rc) && *rc == l {}
+impl vstd::std_specs::convert::FromSpecImpl<Lambda> for VCell {
+    open spec fn obeys_from_spec() -> bool { true }
+    open spec fn from_spec(v: Lambda) -> VCell { lambda_cell(v) }
+}
+/// the code object behind the pointer that compile_lambda leaves in the enclosing bytecode ([.., MovImmediate, ptr, Acc, ClosureAcc])
+/// ends in `call_op(true); Ret`
+pub open spec fn closure_ends_in_tail_call(h: Heap, iof: Lambda) -> bool {
+    iof.bc@.len() >= 4 && exists|l: Lambda| #[trigger] lambda_cell(l) == heap_deref(h, iof.bc@[iof.bc@.len() - 3])
+        && l.bc@.len() >= 2 && l.bc@[l.bc@.len() - 2] == call_op(true) && l.bc@.last() == VCell::OpCode(OpCode::Ret)
+}
+
 // ---------------------------------------------------------------- assumed contracts: Cell accessors (cell.rs, one-line matches)
 pub assume_specification [Cell::car] (c: &Cell) -> (r: Option<&Cell>) ensures r == (match *c { Cell::Pair(a, d) => Some(&*a), _ => None });
 pub assume_specification [Cell::cdr] (c: &Cell) -> (r: Option<&Cell>) ensures r == (match *c { Cell::Pair(a, d) => Some(&*d), _ => None });
@@ -81,7 +109,10 @@ pub assume_specification [Heap::maybe_put_cell] (h: &mut Heap, c: &Cell) -> (r: 
 // helpers of the compile functions whose results the contracts say nothing about
 /// put_cell answers a pointer: an immediate is boxed by Heap::put (heap.rs: `if vcell.is_ptr() { vcell } else { self.put(vcell) }`)
 pub assume_specification [Heap::put_cell] (h: &mut Heap, c: &Cell) -> (r: VCell) ensures r is Ptr;
-pub assume_specification<T: Into<VCell> + Clone> [Heap::put] (h: &mut Heap, v: T) -> (r: VCell);
+/// (proved in unit `heap` against the real body) a value that is not a pointer is boxed in a cell that then holds it
+pub assume_specification<T: Into<VCell> + Clone> [Heap::put] (h: &mut Heap, v: T) -> (r: VCell)
+    ensures <T as vstd::std_specs::convert::IntoSpec<VCell>>::obeys_into_spec() && !(<T as vstd::std_specs::convert::IntoSpec<VCell>>::into_spec(v) is Ptr)
+        ==> heap_deref(*final(h), r) == <T as vstd::std_specs::convert::IntoSpec<VCell>>::into_spec(v);
 pub assume_specification [Cell::is_primitive_symbol] (c: &Cell) -> (r: bool);
 pub assume_specification [Cell::is_symbol] (c: &Cell) -> (r: bool);
 pub assume_specification [Cell::is_vector] (c: &Cell) -> (r: bool) ensures r == (*c is Vector);
@@ -106,8 +137,11 @@ pub assume_specification [Vm::compile_quasiquote] (vm: &mut Vm, lambda: &mut Lam
     ensures r is Ok ==> extends(*old(lambda), *final(lambda));
 pub assume_specification [Vm::compile_set] (vm: &mut Vm, lambda: &mut Lambda, tail: bool, expr: &Cell) -> (r: Result<(), Error>)
     ensures r is Ok ==> extends(*old(lambda), *final(lambda));
-pub assume_specification [Vm::compile_lambda] (vm: &mut Vm, iof: &mut Lambda, expr: &Cell, is_define_special: bool) -> (r: Result<(), Error>)
-    ensures r is Ok ==> extends(*old(iof), *final(iof));
+pub assume_specification [Vm::compile_formal_arguments] (vm: &mut Vm, formal_args: &Cell) -> (r: Result<(Vec<VCell>, bool), Error>);
+pub assume_specification<'a> [crate::vm::environment::free_symbols] (c: &'a Cell) -> (r: Result<std::collections::HashSet<&'a Cell>, Error>);
+pub assume_specification<'a> [crate::vm::environment::internally_defined_symbols] (c: &'a Cell) -> (r: Result<std::collections::HashSet<&'a Cell>, Error>);
+pub assume_specification [Lambda::new_from_iof] (args: Vec<VCell>, internally_defined: Vec<VCell>, iof: &Lambda, free_symbols: &[VCell], is_vararg: bool) -> (r: Lambda);
+pub assume_specification [Lambda::set_desc] (l: &mut Lambda, c: Cell) ensures final(l).bc == old(l).bc;
 /// macro expansion before compilation: some function of the machine and the datum
 pub uninterp spec fn transformed(vm: Vm, e: Cell) -> Cell;
 pub assume_specification [Vm::transform] (vm: &mut Vm, expr: &Cell) -> (r: Result<Cell, Error>)
@@ -239,6 +273,25 @@ pub proof fn axiom_vec_len(v: &Vec<VCell>) ensures v@.len() <= isize::MAX {}''',
                         (P, 'r is Ok && if_form(*expr) ==> if_compiled(*expr, tail, *old(lambda), *final(lambda))')],
         },
         'impl Vm::compile_quote': {'props': P, 'ensures': [EXT]},
+        # procedure bodies: the last body expression is compiled with the tail flag set, so a body ending in a call ends in TCALL; Ret
+        'impl Vm::compile_lambda': {
+            'props': P, 'attrs': NODEC + '\n#[verifier::loop_isolation(false)]',
+            'ensures': [(P, 'r is Ok ==> extends(*old(iof), *final(iof))'),
+                        (P, 'r is Ok ==> ((proc_tail_expr(*expr) matches Some(e) && rt_app(e)) ==> closure_ends_in_tail_call(final(self).heap_spec(), *final(iof)))')],
+            'body_start': 'proof { axiom_into_self(); }',
+            'loops': {0: '''invariant
+                    (*body is Pair) ==> last_tail(*body) == proc_tail_expr(*expr),
+                    !(*body is Pair) ==> ((proc_tail_expr(*expr) matches Some(e) && rt_app(e)) ==> ends_in_call(lambda, true)),'''},
+            'loop_count': 1,
+            'inserts': [
+                {'anchor': 'lambda.emit(OpCode::Ret);', 'where': 'after', 'text': 'let ghost inner = lambda; proof { axiom_lambda_cell(inner); }'},
+                {'anchor': 'Ok(())', 'where': 'before', 'text': '''proof {
+                        if proc_tail_expr(*expr) matches Some(e) && rt_app(e) {
+                            assert(lambda_cell(inner) == heap_deref(self.heap_spec(), iof.bc@[iof.bc@.len() - 3]));
+                        }
+                    }'''},
+            ],
+        },
         # frame only: these append to the bytecode (their tail behaviour: they never emit a call themselves)
         'impl Vm::compile_define': {'props': P, 'attrs': NODEC, 'ensures': [EXT]},
         'impl Vm::compile_define_syntax': {'props': P, 'ensures': [EXT]},
